@@ -41,6 +41,7 @@ type Step struct {
 	Insecure bool     `json:"insecure,omitempty"` // issuer_fn: allowInsecure
 	Ctor     int      `json:"ctor,omitempty"`     // prov: 1 = through the wrapper constructor of the strategy (NewOpenIDProvider / NewDynamicOpenIDProvider / NewForwardedOpenIDProvider)
 	CORS     int      `json:"cors,omitempty"`     // prov: 0 default CORS policy, 1 caller-supplied *cors.Options, 2 CORS switched off (nil)
+	Cfg      *ProvCfg `json:"cfg,omitempty"`      // prov: the provider's op.Config (nil: the zero configuration, see config_test.go)
 	// client-side constructors
 	P      int `json:"p,omitempty"`      // provider the instance talks to (mod number of providers)
 	Client int `json:"client,omitempty"` // 0: the package default client; 1..2: caller-supplied client #n (shared by every instance that names it)
@@ -121,6 +122,9 @@ func genOrder(t *rapid.T) Case {
 				s.Ctor = 1
 			}
 			s.CORS = rapid.SampledFrom([]int{0, 0, 0, 1, 1, 2}).Draw(t, "cors")
+			if rapid.IntRange(0, 5).Draw(t, "owncfg") > 0 {
+				s.Cfg = genProvCfg(t, "cfg-")
+			}
 		case "issuer_fn":
 			genIssuer(t, &s, false)
 		case "rp_oidc", "rp_oauth", "rs", "te", "keyset", "discover":
@@ -154,6 +158,10 @@ type provInst struct {
 	ep       map[string]vkit.EndpointSpec
 	store    *vkit.Store
 	cfg      *op.Config
+	pcfg     *ProvCfg
+	built    *builtCfg
+	devFP    string            // device authorization answer right after construction, own codes left aside (devAnswer.norm)
+	light    map[string]string // key set and the answer to a fixed bad token request right after construction (asked again after every step)
 	provider *op.Provider
 	ag       *vkit.Agent
 	spec     issSpec
@@ -162,6 +170,7 @@ type provInst struct {
 	other    map[string]string // further behaviour right after construction (see extraBehaviour)
 	other0   map[string]string // the same, never updated (provider 0 is what later providers are compared with)
 	disc     string            // discovery document right after construction
+	disc0    string            // the same, never updated
 	routes   map[string]int    // status of a GET on every path of the probe universe right after construction
 	tok      *tokSet
 }
@@ -206,6 +215,7 @@ type orderEnv struct {
 	res      *vkit.Result
 	conseq   map[string]bool
 	lastFn   *issInst // the issuer function the current step built
+	devAll   []devAnswer // every device authorization answer of the case
 	// sticky: names that changed at some step of this case (a later step may put the old value back, but instances built
 	// or used in between keep what they saw)
 	everChanged map[string]bool
@@ -233,7 +243,9 @@ func (e *orderEnv) take() snapshot {
 		s.addClient(clientName(i+1), c)
 	}
 	for _, p := range e.provs {
-		s[fmt.Sprintf("op.Config-of-provider-%d", p.idx)] = fmt.Sprintf("%+v", *p.cfg)
+		for k, v := range p.built.state(fmt.Sprintf("provider-%d", p.idx)) {
+			s[k] = v
+		}
 	}
 	for i, sc := range e.scopes {
 		s[fmt.Sprintf("scopes-of-rp-%d", i)] = sliceState(sc)
@@ -273,13 +285,14 @@ func mkEP(iss string, e vkit.EndpointSpec) *op.Endpoint {
 // newProvider builds provider #idx with op.NewProvider directly (side effects on package state are the point).
 func (e *orderEnv) newProvider(s Step) (*provInst, error) {
 	idx := len(e.provs)
-	p := &provInst{idx: idx, issuer: fmt.Sprintf("https://op%d.example.com", idx), router: s.Router, ep: s.EP, cfg: newConfig()}
+	p := &provInst{idx: idx, issuer: fmt.Sprintf("https://op%d.example.com", idx), router: s.Router, ep: s.EP, pcfg: s.Cfg}
+	p.built = s.Cfg.build(p.issuer)
+	p.cfg = p.built.cfg
 	p.spec = specOf(s, p.issuer)
 	p.spec.Path, p.spec.Insecure = "", false // the provider is mounted at the root of its host
 	if p.router != "legacy" {
 		p.router = "provider"
 	}
-	p.cfg.DefaultLogoutRedirectURI = p.issuer + "/logged-out"
 	p.store = vkit.NewStore(orderClients(), vkit.SignKeySpec{KeyName: "p256a", Alg: "ES256", KID: "sig1"},
 		vkit.StorePolicy{ExtraAudience: []string{"api", "apijwt"}, TE: vkit.TEPolicy{DefaultType: "access"}})
 	p.store.NoJournal = true
@@ -313,9 +326,9 @@ func (e *orderEnv) newProvider(s Step) (*provInst, error) {
 		}
 	}
 	// the caller's Config as it was handed in: constructing and using the provider must leave it alone
-	cfgName := fmt.Sprintf("op.Config-of-provider-%d", idx)
-	e.prev[cfgName] = fmt.Sprintf("%+v", *p.cfg)
-	e.start[cfgName] = e.prev[cfgName]
+	for k, v := range p.built.state(fmt.Sprintf("provider-%d", idx)) {
+		e.prev[k], e.start[k] = v, v
+	}
 	switch s.CORS {
 	case 1:
 		p.cors = corsOptions()
@@ -360,8 +373,11 @@ func (e *orderEnv) newProvider(s Step) (*provInst, error) {
 	e.rt.routes[host] = route{h, p.store}
 	e.provs = append(e.provs, p)
 	p.disc, p.routes = e.behaviour(p, true)
+	p.disc0 = p.disc
 	p.iss, p.other = e.extraBehaviour(p, true)
 	p.other0 = p.other
+	p.light = e.lightBehaviour(p)
+	p.devFP = e.deviceAsk(p, "its construction", 1)[0].norm()
 	return p, nil
 }
 
@@ -414,6 +430,9 @@ func rootOf(name string) string {
 	if strings.HasPrefix(name, "op.DefaultEndpoints") {
 		return "op.DefaultEndpoints"
 	}
+	if i := strings.Index(name, "-of-provider-"); i > 0 {
+		return "caller's-" + name[:i]
+	}
 	return name
 }
 
@@ -464,6 +483,33 @@ func (e *orderEnv) judge(si int, s Step, created *provInst, last bool) {
 		e.everChanged[name] = true
 	}
 	epDirty := e.changedBefore("op.DefaultEndpoints")
+
+	// every live provider is USED after every step (what a provider writes, it may write at request time): device
+	// authorization requests are answered as right after its construction - up to the codes of the answer itself - and
+	// carry no code of any other request of the case; key set and a fixed refusal stay what they were
+	for _, p := range e.provs {
+		n := 1
+		if p == created || last {
+			n = 2
+		}
+		for _, d := range e.deviceAsk(p, fmt.Sprintf("step %d", si), n) {
+			if l := d.foreignCodes(e.devAll); len(l) > 0 {
+				e.res.Label("behaviour-changed:device-answer-carries-foreign-code")
+				add(fpDevForeign, l[0])
+			}
+			if now := d.norm(); now != p.devFP {
+				e.res.Label("behaviour-changed:device-answer")
+				add(fpDevVaries, fmt.Sprintf("provider %d (%s) answers a device authorization request with {%s}; right after its construction the same request was answered {%s}", p.idx, describeCfg(p.pcfg), now, p.devFP))
+			}
+		}
+		if p == created {
+			continue
+		}
+		if d := mapDiff(p.light, e.lightBehaviour(p)); d != "" {
+			e.res.Label("behaviour-changed:earlier-provider-light")
+			add("C20:provider-behaviour-changed-by:"+s.K, fmt.Sprintf("provider %d answers differently than right after its construction: %s", p.idx, d))
+		}
+	}
 
 	// behaviour of every provider built before this step must be what it was right after its construction
 	for _, p := range e.provs {
@@ -541,6 +587,10 @@ func (e *orderEnv) judge(si int, s Step, created *provInst, last bool) {
 		if m := e.bornLike(created, s, epDirty); m != "" {
 			e.res.Label("behaviour-changed:new-provider-not-like-first")
 			add("C20:new-provider-differs-from-first-built-with-same-options:"+created.router, fmt.Sprintf("provider %d (%s), built after %d providers: %s", created.idx, describeStep(s), created.idx, m))
+		}
+		if m := e.bornLikeSameConfig(created, epDirty); m != "" {
+			e.res.Label("behaviour-changed:new-provider-not-like-first-with-same-config")
+			add("C20:new-provider-differs-from-first-built-with-same-configuration", fmt.Sprintf("provider %d (%s), built after %d providers: %s", created.idx, describeStep(s), created.idx, m))
 		}
 	}
 	// client-side instances tell the same about themselves as right after their construction
@@ -661,7 +711,7 @@ func epNames(ep map[string]vkit.EndpointSpec) []string {
 func describeStep(s Step) string {
 	switch s.K {
 	case "prov":
-		return fmt.Sprintf("NewProvider %s router, endpoint options %v bulk=%v, issuer %s, ctor=%d cors=%d", s.Router, epNames(s.EP), s.Bulk, specOf(s, "static"), s.Ctor, s.CORS)
+		return fmt.Sprintf("NewProvider %s router, endpoint options %v bulk=%v, issuer %s, ctor=%d cors=%d, config %s", s.Router, epNames(s.EP), s.Bulk, specOf(s, "static"), s.Ctor, s.CORS, describeCfg(s.Cfg))
 	case "issuer_fn":
 		return "issuer function " + specOf(s, "").String()
 	case "rp_oidc", "rp_oauth", "rs", "te", "keyset", "discover":
@@ -757,7 +807,7 @@ func (e *orderEnv) newRS(s Step) (*rsInst, error) {
 	}
 	var r rs.ResourceServer
 	var err error
-	if s.Opt&2 == 2 {
+	if s.Opt&2 == 2 && !(p.pcfg != nil && p.pcfg.NoPKJWT) { // a resource server is registered with an authentication method its provider offers
 		r, err = rs.NewResourceServerJWTProfile(e.ctx, p.issuer, "apijwt", "kapi", vkit.Key("rsa3").PKCS1PEM(), opts...)
 	} else {
 		r, err = rs.NewResourceServerClientCredentials(e.ctx, p.issuer, "api", "api-secret", opts...)
@@ -972,6 +1022,7 @@ func (e *orderEnv) doStep(s Step) (created *provInst, problem string, usedClient
 		if !d.Success() || dc == "" {
 			return nil, "device authorization: " + d.Describe(), -1
 		}
+		e.devAll = append(e.devAll, devAnswerOf(fmt.Sprintf("provider %d", p.idx), fmt.Sprintf("request %d (a devicepoll step)", len(e.devAll)), d))
 		p.store.ApproveDevice(dc, "u1")
 		before, _, _ := p.store.DeviceSnapshot(dc)
 		r := p.ag.Token(url.Values{"grant_type": {vkit.GDevice}, "device_code": {dc}}, cred)
@@ -1008,10 +1059,12 @@ func runOrder(c Case) *vkit.Result {
 	e := &orderEnv{ctx: context.Background(), rt: newInproc(), res: res, conseq: map[string]bool{}, everChanged: map[string]bool{}}
 	// package state of the case: a fresh default client that reaches the in-process providers; everything is put back at the end
 	vkit.RestoreDefaultEndpoints()
+	restoreDefaultLists()
 	httphelper.DefaultHTTPClient = &http.Client{Timeout: 30 * time.Second, Transport: e.rt}
 	defer func() {
 		httphelper.DefaultHTTPClient = origDefaultClient
 		vkit.RestoreDefaultEndpoints()
+		restoreDefaultLists()
 	}()
 	specs := c.Clients
 	if len(specs) == 0 {
@@ -1071,6 +1124,7 @@ func runOrder(c Case) *vkit.Result {
 	instances, calls, customProv := 1, 0, 0
 	issKinds := map[string]bool{}
 	provSteps, customCORS := 0, false
+	cfgKeys := map[string]int{(*ProvCfg)(nil).key(): 1} // provider 0 has the zero configuration
 	var kinds []string
 	for si, s := range c.Steps {
 		known := false
@@ -1096,6 +1150,8 @@ func runOrder(c Case) *vkit.Result {
 			}
 			if s.K == "prov" {
 				res.Label(fmt.Sprintf("provider-cors:%d", s.CORS), fmt.Sprintf("provider-ctor:%d", s.Ctor))
+				res.Label(s.Cfg.labels("provider-config")...)
+				cfgKeys[s.Cfg.key()]++
 				provSteps++
 				if s.CORS == 0 && s.Router != "legacy" && customCORS {
 					res.Label("has:default-cors-provider-after-custom-cors-provider")
@@ -1139,7 +1195,19 @@ func runOrder(c Case) *vkit.Result {
 	sort.Strings(cs)
 	res.NonTrivial = instances >= 2 || calls >= 1
 	res.Key = "order|" + strings.Join(kinds, ">")
-	res.Label(fmt.Sprintf("provider-steps:%d", min(provSteps, 3)))
+	res.Label(fmt.Sprintf("provider-steps:%d", min(provSteps, 3)), fmt.Sprintf("distinct-provider-configurations:%d", min(len(cfgKeys), 4)), fmt.Sprintf("device-authorization-answers:%d+", len(e.devAll)/10*10))
+	formURLs := map[string]int{}
+	for _, p := range e.provs {
+		if p.pcfg != nil && p.pcfg.FormURL != "" {
+			formURLs[p.pcfg.FormURL]++
+		}
+	}
+	for _, n := range formURLs {
+		if n >= 2 {
+			res.Label("has:two-providers-with-one-user-form-url")
+			break
+		}
+	}
 	if issKinds["fwd"] && issKinds["fwdc"] {
 		res.Label("has:forwarded-default-and-custom-headers")
 	}
@@ -1155,7 +1223,7 @@ func runOrder(c Case) *vkit.Result {
 func stepKey(s Step) string {
 	switch s.K {
 	case "prov":
-		return fmt.Sprintf("prov(%s,%v,%v,%s%v,%d,%d)", s.Router, epNames(s.EP), s.Bulk, s.Iss, s.Hdrs, s.Ctor, s.CORS)
+		return fmt.Sprintf("prov(%s,%v,%v,%s%v,%d,%d,%s)", s.Router, epNames(s.EP), s.Bulk, s.Iss, s.Hdrs, s.Ctor, s.CORS, s.Cfg.key())
 	case "issuer_fn":
 		return fmt.Sprintf("issuer_fn(%s%v,%s,%v)", s.Iss, s.Hdrs, s.Path, s.Insecure)
 	case "rp_oidc", "rp_oauth", "rs", "te", "keyset", "discover":
